@@ -8,7 +8,9 @@ EXTRA = {"C01-3": ["C11"], "C04-3": ["C14"], "C12-3": ["C02"], "C09-3": ["C01"],
          "C08-2": ["C01"], "C16-3": ["C02"], "C04-4": ["C14"], "C09-4": ["C08", "C01"], "C08-4": ["C09"], "C12-5": ["C02"], "C02-5": ["C03"], "C09-1": ["C08"],
          "C09-5": ["C01"], "C09-6": ["C08"], "C03-5": ["C01"], "C08-3": [], "C18-5": ["C14"], "C01-4": ["C11"], "C11-6": ["C01"],
          "C03-9": ["C01"], "C02-9": ["C01"], "C02-7": ["C10"], "C10-7": ["C02"], "C02-8": ["C03", "C01"], "C10-9": ["C02"], "C09-7": ["C16", "C01"], "C09-8": ["C08", "C01"],
-         "C09-9": ["C01"], "C12-9": ["C02"], "C16-8": ["C04"], "C18-7": ["C14"], "C13-9": ["C02"], "C13-8": ["C12"]}
+         "C09-9": ["C01"], "C12-9": ["C02"], "C16-8": ["C04"], "C18-7": ["C14"], "C13-9": ["C02"], "C13-8": ["C12"],
+         "C01-9": ["C08"], "C02-10": ["C01", "C03"], "C02-11": ["C03"], "C02-12": ["C10"], "C03-11": ["C01"], "C03-12": ["C01"], "C09-10": ["C08", "C01"],
+         "C09-11": ["C01"], "C09-12": ["C16", "C01"], "C08-10": ["C01"], "C08-11": ["C01"], "C04-10": ["C02"]}
 items = []
 for d in sorted(glob.glob(os.path.join(V, "seeded", "C*-*"))):
     n = os.path.basename(d)
